@@ -114,7 +114,6 @@ def insertSorted (x : Nat) : List Nat → List Nat
 
 def runLine (ops : String) : String × String :=
   let parsed := (ops.splitOn ";").filter (fun o => !(tokens o).isEmpty) |>.map parseOp
-  -- fuel: far above the proved bound (`C04_unify_terminates`)
   let sz := parsed.foldl (fun n o => match o with | some (_, a, b) => n + size a + size b | none => n) 0
   let fuel := 8 * sz + 64
   let (σ, verdicts, vars, _) := parsed.foldl (fun (acc : Store × List String × List Nat × Bool) o =>
@@ -124,7 +123,8 @@ def runLine (ops : String) : String × String :=
     | none => (σ, "bad-input" :: vs, vars, true)
     | some (args, a, b) =>
       let vars := (varsOf a ++ varsOf b).foldl (fun l v => insertSorted v l) vars
-      match go fuel fuel args σ a b with
+      -- exactly the fuel of the proved bound (`C04_unify_terminates`): `fuel` as an answer would refute it
+      match go (fuelG σ a b) (fuelF σ a b) args σ a b with
       | none => (σ, "fuel" :: vs, vars, true)
       | some (σ', .ok r) => (σ', s!"ok:{showRel r}" :: vs, vars, false)
       | some (σ', .error es) => (σ', ("err:" ++ ",".intercalate (es.map showErr)) :: vs, vars, false)) ([], [], [], false)
